@@ -94,3 +94,18 @@ Example smin_padding_tight :
   /\ map line_text (match render (cf0 4) (Pad (lit_t "a") 0 2 0 1 true) ro0 4 with Ok l => l | _ => [] end) = [lit " a  "]
   /\ render (cf0 3) (Pad (lit_t "a") 0 2 0 1 true) ro0 3 = Ok [].
 Proof. vm_compute. repeat split; reflexivity. Qed.
+
+(* ---------------------------------------------------------------- known finding: ProgressBar inside a group
+   ProgressBar.__rich_console__ ends without a new line (Bar, Rule, Text, every frame end with one), so the
+   next renderable of a RenderGroup continues the bar's line.  Both children are inside the option domain;
+   only `all_but_last ends_nl` (a ProgressBar must be last in its group) excludes the group. *)
+Definition pb_group : R := Group [PBar 100 100 None false 0; Txt (lit "x") None None None] true.
+Theorem group_progress_bar_refuted :
+  smin pb_group = 1 /\ forallb wrappable [PBar 100 100 None false 0; Txt (lit "x") None None None] = true
+  /\ wrappable pb_group = false
+  /\ exists lines, render (cf0 10) pb_group ro0 10 = Ok lines /\ map line_len lines = [11]
+                   /\ fits_b 10 (map line_text lines) = false.
+Proof.
+  split; [vm_compute; reflexivity|]. split; [vm_compute; reflexivity|]. split; [vm_compute; reflexivity|].
+  eexists. split; [vm_compute; reflexivity|]. split; vm_compute; reflexivity.
+Qed.
